@@ -14,6 +14,7 @@
 import ast
 
 from .common import *
+from . import shared
 from ..interp import Interp
 
 TABLE = {
@@ -72,6 +73,8 @@ def run(chk, ctx):
     chk.describe("C09.RUN", "hasattr(self, <literal>) names an attribute that is stored; is_running follows the generator cache")
     chk.describe("C09.STOP", "__next__ resumes the per-instance cached generator")
     repo = ctx.repo
+    for cname_ in ctx.model.concrete_classes():
+        shared.rule_observer_attrs(chk, "C09.EXH", repo, cname_, ("is_exhausted", "is_running"))
     for run_ in all_runs(chk, ctx):
         it = run_.interp
         cfg = run_.cfg_text()
@@ -86,6 +89,11 @@ def run(chk, ctx):
             and not any(rec.kind == "EndForward" for rec in it.yields)
         if exp is None:
             chk.note(f"{run_.cname}{cfg}: {mult} adjoint calculations (class not in the documented table)")
+        elif raises_only and not run_.numcase and not run_.config:
+            # not a boundary cell and no configuration to blame: on every path the generator raises before the forward
+            # calculation is complete - no instance of the class ever concludes
+            chk.decide("C09.MULT", cons, False, f"{run_.cname}: every path raises before EndForward; documented: {exp} adjoint "
+                       "calculation(s)", rel=run_.rel, node=run_.fn)
         elif raises_only and exp != "0":
             # a cell of the configuration in which the generator fails before the forward calculation is
             # complete is outside the domain the table speaks about (whether it must be rejected earlier
